@@ -218,6 +218,10 @@ def gen_plan(seed, cfg):
              "prewarm": False}]
         va = rng.choice([0, 1, 2])
         plan["threads"] = [[[0, va]], [[1, va]]]
+        if rng.random() < 0.4:
+            # the victim repeats its request: state that remembers "the most recent request" is read on
+            # the second call while the partner's different request replaces it
+            plan["threads"][0].append([0, va])
         plan["park_sweep"] = {"thread": 0, "max": 16, "kind": "shared"}
     elif r_sweep < (0.03 if tier == "quick" else 0.05):
         # enumeration run: two threads, one shared method (compiled or not), every shared write of
@@ -431,8 +435,9 @@ def _make_tracer(s: Sched, shared_names=None):
             f = code.co_filename
             if f.startswith(hot):
                 w = windows.get((f, code.co_name)) or windows.get((f, None))
-                loc = mk(True, os.path.basename(f), w, _write_lines(code) if f.startswith(hot[:2]) else frozenset()), \
-                    w, f.startswith(hot[:2])
+                own = f.startswith(hot[:2])
+                loc = mk(True, os.path.basename(f), w, _write_lines(code) if own else frozenset(),
+                         _shared_lines(code, ()) if own else frozenset()), w, own
             elif f.startswith(cold):
                 loc = mk(False, os.path.basename(f), None, frozenset(),
                          _shared_lines(code, shared_names.get(f, ()))), None, False
